@@ -151,7 +151,14 @@ def rule_splice(ctx, rep):
 def rule_locked(ctx, rep):
     table = {"_cds_wfcq_dequeue_with_state_blocking": (0, 1, "___cds_wfcq_dequeue_with_state_blocking"), "_cds_wfcq_splice_blocking": (2, 3, "___cds_wfcq_splice_blocking")}
     for name, (ha, ta, inner) in table.items():
-        for lib, f in copies(ctx, name):
+        cps = copies(ctx, name, need=False)
+        if not cps:
+            # the static-inline helper was folded into its exported wrapper: C10.exported decides the same clause on the wrapper
+            exported = name[1:]
+            pat.require(ctx.mod("cds", "flat").fn(exported) is not None, "neither %s nor %s is compiled" % (name, exported))
+            rep.ok("C10.locked", "cds." + name + ".folded", "%s is folded into the exported %s (lock bracket decided by C10.exported)" % (name, exported), [exported])
+            continue
+        for lib, f in cps:
             rep.touch(f)
             tag = "%s.%s" % (lib, f.name)
             m = f.mod
